@@ -384,7 +384,7 @@ func errClass(err error) string {
 
 func family(c *harness.Check) []string {
 	var out []string
-	servers := []string{"none", "socks5", "ss2022", "direct"}
+	servers := []string{"none", "socks5", "ss2022", "ss2022mu", "direct"} // ss2022mu: multi-user server (identity headers), sessions of two users
 	for _, sv := range servers {
 		for _, b := range []string{"no", "sendmmsg"} {
 			tk := []string{"ip", "domain", "mixed"}
